@@ -1,16 +1,16 @@
 """C16 — domain quadtree (DESIGN 4.C16)."""
-from vlib.core import Check
+from vlib.core import Check, guarded
 
 
 def run(tier, seed):
     chk = Check("C16", tier, seed, "exploration", "./check C16 --tier " + tier)
     try:
         from checks import c16_proved
-        c16_proved.add_obligations(chk, tier, seed)
+        guarded(chk, 'proved part c16_proved', c16_proved.add_obligations, chk, tier, seed)
     except ImportError:
         chk.notes.append("proved local clauses not built yet")
     from bounded import initial_explorer
-    initial_explorer.run(chk, tier, seed)
+    guarded(chk, 'bounded part initial_explorer.run', initial_explorer.run, chk, tier, seed)
     from bounded import bdr_via_curve
-    bdr_via_curve.run(chk, tier, seed)
+    guarded(chk, 'bounded part bdr_via_curve.run', bdr_via_curve.run, chk, tier, seed)
     return chk.finish()
